@@ -34,9 +34,12 @@ def normalise(prog):
         fl2 = []
         for (acc, deps) in flows:
             deps = [keep_ldefs(acc, dep) for dep in deps]
+            # 'm' (ternary, memory on both sides) only where the flow may name memory
+            deps = [((d[0], "t") + tuple(d[2:]) if (d[1] == "m" and (acc == "C" or (acc == "R" and d[0] == "o"))) else d)
+                    for d in deps]
             if acc == "W":
                 # a WRITE flow has outputs only; a ternary would need a task target with a matching input flow
-                deps = [(d[0], ("b" if d[1] == "t" else d[1])) for d in deps if d[0] == "o"] or [("o", "u")]
+                deps = [(d[0], ("b" if d[1] == "t" else d[1])) for d in deps if d[0] == "o"] or [("o", "u")]   # 'm' stays
             if acc in ("R", "RW") and not any(d[0] == "i" for d in deps):
                 deps = [("i", "u")] + deps
             if acc in ("R", "RW") and any(d[:2] == ("i", "t") for d in deps) and not any(d[0] == "o" for d in deps):
@@ -90,12 +93,12 @@ class C24(Check):
                     target = r.pick([8, 9, 10, 10, 11, 12])
                     n = 0
                     while n < target:
-                        g = r.pick(["t", "t", "b", "u"]) if target - n >= 2 else r.pick(["b", "u"])
+                        g = r.pick(["t", "t", "m", "b", "u"]) if target - n >= 2 else r.pick(["b", "u"])
                         deps.append((direction, g))
-                        n += 2 if g == "t" else 1
+                        n += 2 if g in ("t", "m") else 1
         else:
             for _ in range(r.range(1, 4)):
-                deps.append((r.pick(["i", "o"]), r.pick(["u", "b", "t"])))
+                deps.append((r.pick(["i", "o"]), r.pick(["u", "b", "t", "m"])))
         return (acc, deps)
 
     def ldef_flow(self, r, want):
@@ -131,6 +134,8 @@ class C24(Check):
         for total in (20, 21):
             out.append(J.case_text(normalise([(total - 4, [("R", [("i", "u"), ("o", "b", 2, 1, 0), ("o", "b", 1, 0, 0), ("o", "u")])])])))
             out.append(J.case_text(normalise([(total - 3, [("C", [("i", "u"), ("o", "t", 0, 1, 2), ("o", "u")]), ("R", [("i", "u"), ("o", "u")])])])))
+        # a ternary whose two branches both reference memory (each branch needs its own accessor function)
+        out.append(J.case_text(normalise([(0, [("RW", [("i", "u"), ("o", "m"), ("o", "b")]), ("W", [("o", "m")]), ("R", [("i", "m")])])])))
         # known finding: a CTL gather (input) dependency with local definitions at both levels
         out.append(J.case_text(normalise([(0, [("C", [("i", "b", 1, 1, 0), ("o", "u")])])])))
         for i in range(n):
@@ -175,8 +180,8 @@ class C24(Check):
             m.append(("locals", nloc + 1 + max([slots(dep) for (acc, deps) in flows for dep in deps] + [0])))
             m.append(("flows", len(flows)))
             for (acc, deps) in flows:
-                m.append(("in", sum((2 if dep[1] == "t" else 1) for dep in deps if dep[0] == "i")))
-                m.append(("out", sum((2 if dep[1] == "t" else 1) for dep in deps if dep[0] == "o")))
+                m.append(("in", sum((2 if dep[1] in ("t", "m") else 1) for dep in deps if dep[0] == "i")))
+                m.append(("out", sum((2 if dep[1] in ("t", "m") else 1) for dep in deps if dep[0] == "o")))
         return mal, m
 
     def nontrivial_key(self, case):
